@@ -49,6 +49,7 @@ fn history(out: &mut Out, rng: &mut Rng, pool: &Pool, nops: usize, what: &str, f
             }
             1 => ev_cfg(out, &mut enc, Cfg::Disable),
             2 => ev_cfg(out, &mut enc, Cfg::Enable),
+            3 if rng.chance(1, 4) => ev_set_crc(out, &mut enc),
             3 => ev_cfg(out, &mut enc, Cfg::EnableMax(*rng.pick(&[0u8, 1, 1, 2, 2, 3, 255]))),
             4 | 5 => {
                 // a failing call: too-small buffer, PDU too long, bad protocol type, zero label
@@ -298,6 +299,26 @@ pub fn run(out: &mut Out, seed: u64, thorough: bool, scn: Option<&str>) {
             feed_tx(out, &mut rx, &t);
         }
         rx.ev_drain(out);
+    }
+    // the CRC calculator is replaced in the middle of a streak: policy (disabled / maximum), counter and
+    // remembered label are not its business
+    for (ci, cfg) in [Cfg::Disable, Cfg::EnableMax(1), Cfg::EnableMax(2), Cfg::EnableMax(3), Cfg::Enable].into_iter().enumerate() {
+        for before in 1..=3usize {
+            let mgr = TableMgr { known: vec![] };
+            let mut rx = mk_rx(out, "labels", "set_crc_mid_streak", 3, 64, 3, mgr, true);
+            let mut enc = Encapsulator::new(DefaultCrc {});
+            ev_cfg(out, &mut enc, cfg);
+            for i in 0..before {
+                let t = ev_encap(out, &mut enc, &pool.small[i % 4], 1, LA6, 0x0800, 64, None, None);
+                feed_tx(out, &mut rx, &t);
+            }
+            ev_set_crc(out, &mut enc);
+            for i in 0..(4 + ci) {
+                let t = ev_encap(out, &mut enc, &pool.small[i % 4], 1, LA6, 0x0800, 64, None, None);
+                feed_tx(out, &mut rx, &t);
+            }
+            rx.ev_drain(out);
+        }
     }
     // the all-zero 6-byte label must be refused every time, by encap and by encap_ext
     for use_ext in [false, true] {
